@@ -25,7 +25,7 @@ CLAUSES = {
     "C09": ["C09_bag", "C09_props", "C09_extra"],
     "C10": ["R2_equal", "R2_exposed", "C01_settles"],
     "C11": ["C01_value", "R2_equal", "C11_range", "C01_settles"],
-    "C12": ["R2_equal", "R2_exposed", "C01_settles", "C01_value", "C02_bag", "C06_entity", "C06_condition", "C06_enable"],
+    "C12": ["R2_equal", "R2_exposed", "C01_settles", "C01_value", "C02_bag", "C06_entity", "C06_condition", "C06_enable", "C12_isolated"],
     "C13": ["R2_equal", "R2_exposed", "C01_value", "C02_bag", "C03_value", "C13_reserved", "C13_fresh", "C01_settles"],
     "C14": ["C14_rejected", "C14_message", "C14_names", "C14_exit", "C14_no_blueprint"],
     "C15": ["R2_equal", "R2_exposed", "C01_value", "C03_value", "C06_entity", "C06_condition", "C06_enable", "C09_bag", "C09_extra", "C01_settles"],
@@ -274,7 +274,7 @@ def c03(ctx):
                        "item-typed cells, two independent and two chained cells); TLC explores ALL input histories (closure of ChangeInput "
                        "over the trimmed domain) of Circuit(BP) x abstract gated cell and compares every reader at every settled state: "
                        "0 before the first enabled write, follows v while c > 0, holds afterwards whatever v does")
-    mem_check(ctx, ("cell", "shared", "readers", "two", "cells"), "C03_value", 28)
+    mem_check(ctx, ("cell", "shared", "readers", "two", "cells", "samee", "early"), "C03_value", 36)
 
 
 @prop("C04")
@@ -318,7 +318,7 @@ def ent_progs(prefix):
 def c06(ctx):
     progs = ent_progs("c06:")
     ctx.cov["corpus_size"] = 2 * len(progs)
-    sel = pick(progs, 40, ctx.seed, always=SMOKE.get("C06", ())) if ctx.tier == "quick" else progs
+    sel = pick_strat(progs, 70, ctx.seed, min_per=8) if ctx.tier == "quick" else progs
     ctx.cov["exhaustive"] = ctx.tier != "quick"
     ctx.cov["rule"] = ("programs = GenEntity: 5 circuit-controllable prototypes x 15 enable forms (inlinable comparisons, signal-vs-signal, "
                        "general expressions, logic, bare signals), shared sources / several entities, contents read through .output (any/all "
@@ -347,8 +347,8 @@ def c06(ctx):
 def c09(ctx):
     progs = ent_progs("c09:")
     ctx.cov["corpus_size"] = len(progs)
-    sel = pick(progs, 60, ctx.seed, always=SMOKE.get("C09", ())) if ctx.tier == "quick" else progs
-    ctx.cov["exhaustive"] = ctx.tier != "quick"
+    sel = progs
+    ctx.cov["exhaustive"] = True
     ctx.cov["rule"] = ("programs = GenEntity C09 families: 9 prototypes (1x1 .. 3x3) x coordinates incl. negatives, static properties, loops "
                        "over every (start, stop, step) of a small box incl. empty and descending ranges, list iterators, nested loops, int "
                        "arithmetic, functions called repeatedly / nested / inside loops, mixes with circuits; TLC compares the bag of non-"
@@ -453,7 +453,7 @@ def c12(ctx):
     ctx.assumptions = ASSUME_BASE
 
     def item(p, rs):
-        it = twin_item(p, rs, dom=p["dom"])
+        it = twin_item(p, rs, dom=p["dom"], owner=p["owner"])
         if p.get("cins"):
             items = sorted({c["item"] for c in p["cins"]})
             it["cins"] = p["cins"]
